@@ -1397,7 +1397,9 @@ func surviveCase(e *ev.Env, c *ev.Case, o appOpts, reqs []*rq, raw []byte, mutat
 			limit += 8 << 20
 		}
 		if d > limit {
-			site := allocSite(e, c, mk, raw, limit, d)
+			// attribution works on the plain budget: the response compressor is one of its
+			// components, so its allowance must not blur which removals bring the cost down
+			site := allocSite(e, c, mk, raw, budget(len(raw)), d)
 			if site == "response-compression" {
 				// the compressor's working memory (brotli: MiBs per stream, also when the answer
 				// ends up a 304): a fixed cost of the helper the handler chose, not of the request
